@@ -71,6 +71,30 @@ def has_chord(faces):
     return False
 
 
+def is_regular_complex(faces):
+    """two distinct faces share nothing, one vertex, or exactly one common edge (two vertices consecutive in both faces)"""
+    by_vertex = {}
+    for fi, f in enumerate(faces):
+        for v in f:
+            by_vertex.setdefault(v, []).append(fi)
+    shared = {}
+    for v, fs in by_vertex.items():
+        for a in range(len(fs)):
+            for b in range(a + 1, len(fs)):
+                shared.setdefault((fs[a], fs[b]), []).append(v)
+    for (fa, fb), vs in shared.items():
+        if len(vs) < 2:
+            continue
+        if len(vs) > 2:
+            return False
+        u, v = vs
+        for f in (faces[fa], faces[fb]):
+            i, j = f.index(u), f.index(v)
+            if (i - j) % len(f) not in (1, len(f) - 1):
+                return False
+    return True
+
+
 class RefSurface:
     def __init__(self, nv, faces, edges=None):
         self.nv = nv
